@@ -25,6 +25,7 @@ FAMILIES = {
     "locks": {"src": "locks.cpp"},
     "rcu": {"src": "rcu.cpp"},
     "prims": {"src": "prims.cpp"},
+    "tripwire": {"src": "tripwire.cpp"},
 }
 
 EXPLORATION_NOTE = ("Trusted base: the vrt runtime's model of std::mutex/timed_mutex/shared_mutex/shared_timed_mutex/condition_variable/atomic "
@@ -87,6 +88,17 @@ PROPS = {
                 "interval reasoning (abstaining when a controller call was in flight); lost wake-ups appear as deadlock. Exploration only.",
         "assumptions": ["single controller (racing activate calls are not generated)", "untimed waits are generated only when the controller's final state releases them"],
         "stages": [{"family": "prims", "flavour": "plain", "target": "C11", "cases": (800000, 10000000), "maxsec": (40, 400)}],
+    },
+    "C19": {
+        "level": "exploration",
+        "technique": "property-based testing over (trigger life cycles incl. moves x detectors x line kinds x schedule x reads-from choices in a C++11 weak-memory model); oracle = one-way/monotone trip flags, per-line independence, happens-before monitor on the published datum, crash-freedom",
+        "design_ref": "DESIGN.md §5 C19",
+        "text": "Generated trigger life cycles (plain, moved with either destruction order, move-assigned) and polling detectors on explicit, indexed and declared lines run under generated schedules, "
+                "half of them with stale reads allowed where the memory orders in the source allow them; a datum written before the trip is read after observing it under the vector-clock monitor. "
+                "A crash of the worker (e.g. destroying a moved-from trigger) is minimised by delta debugging and reported. Exploration only.",
+        "assumptions": ["one publishing fiber per line (the property speaks of 'the triggering thread')", "the line whose armed trigger is overwritten by move-assignment is not observed (unspecified)",
+                        "weak-memory model fixes modification order to execution order (under-approximation of C++11)"],
+        "stages": [{"family": "tripwire", "flavour": "plain", "target": "C19", "cases": (800000, 10000000), "maxsec": (40, 400)}],
     },
     "C12": {
         "level": "exploration",
